@@ -50,7 +50,7 @@ impl Property for C15 {
         proptest::collection::vec(any::<u16>(), 0..(max_ops * 8 + 8))
             .prop_map(move |genes| {
                 let mut g = Genes::new(genes);
-                let cfg = HistCfg { max_ops, safe_strings: false, w_struct: 5, w_attr: 4, w_chardata: 7, w_create: 5, huge_offsets: false, ..Default::default() };
+                let cfg = HistCfg { max_ops, safe_strings: false, w_struct: 5, w_attr: 4, w_chardata: 7, w_create: 5, huge_offsets: false, w_compound: 5, ..Default::default() };
                 hist::gen_history(&mut g, &cfg)
             })
             .boxed()
